@@ -52,12 +52,14 @@ Proof.
   - destruct (resolve _ _ _ _ _); cbn [fst]; auto.
   - destruct (resolve _ _ _ _ _); cbn [fst cells ptr]; auto. rewrite zlen_upd. auto.
   - destruct dims as [|d [|d2 ds]].
-    + destruct (calc_flat [] (map narrow32 idxs)) as [f|] eqn:F; cbn [fst cells ptr]; auto.
+    + destruct (all_to_int idxs) as [l|]; [|cbn [fst]; auto].
+      destruct (calc_flat [] l) as [f|] eqn:F; cbn [fst cells ptr]; auto.
       split; [exact HL|]. apply calc_flat_some_iff_l in F. destruct F as [Hin ->]. apply row_major_bounds; auto.
     + destruct idxs as [|i [|i2 is_]]; cbn [fst]; auto.
       destruct (Z.ltb_spec i 0), (Z.leb_spec d i); cbn [orb fst cells ptr]; auto.
       split; [exact HL|]. rewrite size_1. lia.
-    + destruct (calc_flat (d :: d2 :: ds) (map narrow32 idxs)) as [f|] eqn:F; cbn [fst cells ptr]; auto.
+    + destruct (all_to_int idxs) as [l|]; [|cbn [fst]; auto].
+      destruct (calc_flat (d :: d2 :: ds) l) as [f|] eqn:F; cbn [fst cells ptr]; auto.
       split; [exact HL|]. apply calc_flat_some_iff_l in F. destruct F as [Hin ->]. apply row_major_bounds; auto.
   - destruct (ptr s) as [e|] eqn:P; cbn [fst]; [|split; [exact HL|rewrite P; exact I]].
     destruct (ptr_arith base (size dims) e true k) as [e'|] eqn:F; cbn [fst cells ptr]; [|split; [exact HL|rewrite P; exact HP]].
@@ -75,7 +77,8 @@ Proof.
   - destruct (ptr s) as [e|] eqn:P; cbn [fst]; [|split; [exact HL|rewrite P; exact I]].
     destruct ((e + k <? 0) || (av_size dims <=? e + k)); cbn [fst]; (split; [rewrite ?zlen_upd; exact HL|rewrite ?P; exact HP]).
   - destruct (ptr s) as [e|] eqn:P; cbn [fst]; [|split; [exact HL|rewrite P; exact I]].
-    destruct ((e + narrow32 k <? 0) || (av_size dims <=? e + narrow32 k)); cbn [fst cells ptr];
+    destruct (index_to_int k) as [k'|]; [|cbn [fst]; split; [exact HL|rewrite P; exact HP]].
+    destruct ((e + k' <? 0) || (av_size dims <=? e + k')); cbn [fst cells ptr];
       (split; [rewrite ?zlen_upd; exact HL|rewrite ?P; exact HP]).
   - destruct (ptr s) as [e|] eqn:P; cbn [fst]; [|split; [exact HL|rewrite P; exact I]].
     destruct (size dims <=? e); cbn [fst]; (split; [rewrite ?zlen_upd; exact HL|rewrite ?P; exact HP]).
@@ -176,13 +179,10 @@ Definition same (r : res) (r' : option res) : Prop :=
   | _, _ => False
   end.
 
-(* inputs on which the pinned code agrees with the property (the rest: *_refuted theorems) *)
+(* the only restriction left: p[k] is modelled (and works) on rank-1 arrays only (pointer_index_into_multidim_rejected_refuted) *)
 Definition op_ok (dims : list Z) (o : op) : Prop :=
   match o with
-  | ORead idxs | OWrite idxs _ | OAddr idxs => Forall int_range idxs
-  | OPtrAdd k | OPtrSub k | ODerefAdd k => - two60 <= k <= two60
-  | OPtrRead _ => rank1 dims = true
-  | OPtrWrite k _ => rank1 dims = true /\ int_range k
+  | OPtrRead _ | OPtrWrite _ _ => rank1 dims = true
   | _ => True
   end.
 
@@ -224,6 +224,7 @@ Lemma step_simulates ak dims base s ss o :
 Proof.
   intros (Hsup & Hpos & Hn & Hbase) Hwf HR Hok.
   pose proof Hwf as [HL HP]. pose proof HR as [HC HPE].
+  pose proof (dims_fit_of_size dims Hpos Hn) as Hfit.
   assert (CELL : forall e, 0 <= e < size dims -> getc e (cells s) = sh ss (unflat dims e)).
   { intros e He. destruct (unflat_spec dims Hpos e He) as [Hin E]. rewrite <- (HC _ Hin), E. reflexivity. }
   assert (WCELL : forall e v, 0 <= e < size dims ->
@@ -232,14 +233,14 @@ Proof.
     pose proof (R_write dims s ss _ v Hwf HR Hin) as H. rewrite E in H. exact H. }
   destruct o; cbn [step sstep op_ok] in *.
   - (* read *)
-    rewrite HL. destruct (resolve_accepts_iff_l ak Rd dims idxs Hsup Hok) as [A B].
+    rewrite HL. destruct (resolve_accepts_iff_l ak Rd dims idxs Hsup Hfit) as [A B].
     destruct (resolve ak Rd dims (size dims) idxs) as [f|e] eqn:E.
     + assert (Hin : in_range dims idxs) by (apply A; eauto). rewrite (in_rangeb_true _ _ Hin).
       cbn [fst snd same]. rewrite (B f eq_refl). split; [apply HC; exact Hin|exact HR].
     + assert (Hnot : ~ in_range dims idxs) by (intros H; apply A in H; destruct H; congruence).
       rewrite (in_rangeb_false _ _ Hnot). cbn [fst snd same]. auto.
   - (* write *)
-    rewrite HL. destruct (resolve_accepts_iff_l ak Wr dims idxs Hsup Hok) as [A B].
+    rewrite HL. destruct (resolve_accepts_iff_l ak Wr dims idxs Hsup Hfit) as [A B].
     destruct (resolve ak Wr dims (size dims) idxs) as [f|e] eqn:E.
     + assert (Hin : in_range dims idxs) by (apply A; eauto). rewrite (in_rangeb_true _ _ Hin).
       cbn [fst snd same]. rewrite (B f eq_refl). split; [exact I|]. apply R_write; auto.
@@ -247,17 +248,25 @@ Proof.
       rewrite (in_rangeb_false _ _ Hnot). cbn [fst snd same]. auto.
   - (* p = &a[...] *)
     assert (ND : forall ds, ds = dims ->
-      same (snd (match calc_flat ds (map narrow32 idxs) with
-                 | Some f => (mkst (cells s) (Some f), RUnit) | None => (s, RErr EBounds) end))
+      same (snd (match all_to_int idxs with
+                 | None => (s, RErr EBounds)
+                 | Some l => match calc_flat ds l with
+                             | Some f => (mkst (cells s) (Some f), RUnit) | None => (s, RErr EBounds) end end))
            (snd (if in_rangeb ds idxs then (mksst (sh ss) (Some (row_major ds idxs)), Some RUnit) else (ss, None))) /\
-      R ds (fst (match calc_flat ds (map narrow32 idxs) with
-                 | Some f => (mkst (cells s) (Some f), RUnit) | None => (s, RErr EBounds) end))
+      R ds (fst (match all_to_int idxs with
+                 | None => (s, RErr EBounds)
+                 | Some l => match calc_flat ds l with
+                             | Some f => (mkst (cells s) (Some f), RUnit) | None => (s, RErr EBounds) end end))
            (fst (if in_rangeb ds idxs then (mksst (sh ss) (Some (row_major ds idxs)), Some RUnit) else (ss, None)))).
-    { intros ds ->. rewrite (map_narrow32_id _ Hok).
-      destruct (calc_flat dims idxs) as [f|] eqn:F.
-      - apply calc_flat_some_iff_l in F. destruct F as [Hin ->]. rewrite (in_rangeb_true _ _ Hin).
-        cbn [fst snd same]. split; [exact I|]. split; [exact HC|reflexivity].
-      - apply calc_flat_none_iff in F. rewrite (in_rangeb_false _ _ F). cbn [fst snd same]. auto. }
+    { intros ds ->. destruct (all_to_int idxs) as [l|] eqn:C.
+      - apply all_to_int_spec in C. destruct C as [_ ->].
+        destruct (calc_flat dims idxs) as [f|] eqn:F.
+        + apply calc_flat_some_iff_l in F. destruct F as [Hin ->]. rewrite (in_rangeb_true _ _ Hin).
+          cbn [fst snd same]. split; [exact I|]. split; [exact HC|reflexivity].
+        + apply calc_flat_none_iff in F. rewrite (in_rangeb_false _ _ F). cbn [fst snd same]. auto.
+      - apply all_to_int_none in C.
+        assert (F : ~ in_range dims idxs) by (intros G; apply C; eapply in_range_fits; eauto).
+        rewrite (in_rangeb_false _ _ F). cbn [fst snd same]. auto. }
     destruct dims as [|d [|d2 ds]]; [apply ND; reflexivity| |apply ND; reflexivity].
     destruct idxs as [|i [|i2 is_]].
     + cbn [in_rangeb fst snd same]. auto.
@@ -268,12 +277,12 @@ Proof.
     + cbn [in_rangeb]. rewrite andb_false_r. cbn [fst snd same]. auto.
   - (* p = p + k *)
     rewrite <- HPE. destruct (ptr s) as [e|]; [|cbn [fst snd same]; auto].
-    rewrite (ptr_arith_ok_l base (size dims) e true k Hbase HP Hn Hok). unfold in_pos.
+    rewrite (ptr_arith_ok_l base (size dims) e true k Hbase HP Hn). unfold in_pos.
     destruct ((0 <=? e + k) && (e + k <? size dims)); cbn [fst snd same]; auto.
     split; [exact I|]. split; [exact HC|reflexivity].
   - (* p = p - k *)
     rewrite <- HPE. destruct (ptr s) as [e|]; [|cbn [fst snd same]; auto].
-    rewrite (ptr_arith_ok_l base (size dims) e false k Hbase HP Hn Hok). unfold in_pos.
+    rewrite (ptr_arith_ok_l base (size dims) e false k Hbase HP Hn). unfold in_pos.
     destruct ((0 <=? e - k) && (e - k <? size dims)); cbn [fst snd same]; auto.
     split; [exact I|]. split; [exact HC|reflexivity].
   - (* p++ *)
@@ -294,12 +303,15 @@ Proof.
     destruct (Z.ltb_spec (e + k) 0), (Z.leb_spec d (e + k)), (Z.leb_spec 0 (e + k)), (Z.ltb_spec (e + k) d); try lia;
       cbn [orb andb fst snd same]; auto.
   - (* p[k] = v *)
-    destruct Hok as [Hr1 Hk]. rewrite (narrow32_id _ Hk).
     rewrite <- HPE. destruct (ptr s) as [e|] eqn:P; [|cbn [fst snd same]; auto].
-    destruct dims as [|d [|d2 ds]]; try discriminate Hr1. cbn [av_size]. rewrite size_1 in *. unfold in_pos.
-    destruct (Z.ltb_spec (e + k) 0), (Z.leb_spec d (e + k)), (Z.leb_spec 0 (e + k)), (Z.ltb_spec (e + k) d); try lia;
-      cbn [orb andb fst snd same]; auto.
-    split; [exact I|]. assert (W0 : 0 <= e + k < d) by lia. pose proof (WCELL (e + k) v W0) as W. rewrite <- HPE in W. exact W.
+    destruct dims as [|d [|d2 ds]]; try discriminate Hok. cbn [av_size]. rewrite size_1 in *. unfold in_pos.
+    destruct (index_to_int k) as [k'|] eqn:K.
+    + apply index_to_int_spec in K. destruct K as [_ ->].
+      destruct (Z.ltb_spec (e + k) 0), (Z.leb_spec d (e + k)), (Z.leb_spec 0 (e + k)), (Z.ltb_spec (e + k) d); try lia;
+        cbn [orb andb fst snd same]; auto.
+      split; [exact I|]. assert (W0 : 0 <= e + k < d) by lia. pose proof (WCELL (e + k) v W0) as W. rewrite <- HPE in W. exact W.
+    + apply index_to_int_none in K. unfold int_range, two31 in *.
+      destruct (Z.leb_spec 0 (e + k)), (Z.ltb_spec (e + k) d); cbn [andb fst snd same]; auto. lia.
   - (* *p *)
     rewrite <- HPE. destruct (ptr s) as [e|]; [|cbn [fst snd same]; auto].
     destruct (Z.leb_spec (size dims) e); [lia|]. cbn [fst snd same]. split; [apply CELL; lia|exact HR].
@@ -309,7 +321,7 @@ Proof.
     assert (W0 : 0 <= e < size dims) by lia. pose proof (WCELL e v W0) as W. rewrite <- HPE in W. exact W.
   - (* *(p + k) *)
     rewrite <- HPE. destruct (ptr s) as [e|]; [|cbn [fst snd same]; auto].
-    rewrite (ptr_arith_ok_l base (size dims) e true k Hbase HP Hn Hok). unfold in_pos.
+    rewrite (ptr_arith_ok_l base (size dims) e true k Hbase HP Hn). unfold in_pos.
     destruct (Z.leb_spec 0 (e + k)), (Z.ltb_spec (e + k) (size dims)); cbn [andb fst snd same]; auto.
     destruct (Z.leb_spec (size dims) (e + k)); [lia|]. cbn [fst snd same]. split; [apply CELL; lia|exact HR].
 Qed.
@@ -347,13 +359,13 @@ Proof.
 Qed.
 
 (* an accepted write changes the cell of exactly one in-range tuple *)
-Lemma write_one_cell_l ak dims base s idxs v s' : supported ak dims -> wf dims s -> Forall int_range idxs ->
+Lemma write_one_cell_l ak dims base s idxs v s' : supported ak dims -> dims_fit dims -> wf dims s ->
   step ak dims base s (OWrite idxs v) = (s', RUnit) ->
   in_range dims idxs /\ ptr s' = ptr s /\
   forall t, in_range dims t ->
     getc (row_major dims t) (cells s') = if tuple_eqb t idxs then v else getc (row_major dims t) (cells s).
 Proof.
-  intros Hsup Hwf Hi. pose proof Hwf as [HL _]. cbn [step]. rewrite HL.
+  intros Hsup Hi Hwf. pose proof Hwf as [HL _]. cbn [step]. rewrite HL.
   destruct (resolve_accepts_iff_l ak Wr dims idxs Hsup Hi) as [A B].
   destruct (resolve ak Wr dims (size dims) idxs) as [f|e] eqn:E; [|discriminate].
   intros H. injection H as <-. assert (Hin : in_range dims idxs) by (apply A; eauto).
